@@ -99,13 +99,15 @@ func isPublic(fname string) bool {
 
 func getContextFromFilename(fname string) keystore.KeyContext {
 	if isHistoricalFilename(fname) {
-		fname = filepath.Dir(fname)
+		// rotated keys live in "<key file>.old/<timestamp>" and are encrypted like the key file itself
+		fname = strings.TrimSuffix(filepath.Dir(fname), historyDirSuffix)
 	}
 	if fname == PoisonKeyFilename {
 		return keystore.NewKeyContext(keystore.PurposePoisonRecordKeyPair, []byte(fname))
 	}
 	if fname == getSymmetricKeyName(PoisonKeyFilename) {
-		return keystore.NewKeyContext(keystore.PurposePoisonRecordSymmetricKey, []byte(fname[:len(fname)-len("_sym")]))
+		// same context as KeyStore.GeneratePoisonSymmetricKey/GetPoisonSymmetricKey: the full key name
+		return keystore.NewKeyContext(keystore.PurposePoisonRecordSymmetricKey, []byte(fname))
 	}
 	fname = filepath.Base(fname)
 	if strings.HasSuffix(fname, ".old") {
